@@ -63,6 +63,11 @@ def c16a(ctx, tu):
                    detail="no normal exit found in " + f.q)
             continue
         bad = None
+        unresolved = [tr for (ok, acted, flag), tr in exits.items() if flag and "unresolved severity" in flag]
+        if unresolved:
+            ctx.ob("C16.a", A["dispatch"], None, pattern=f.pat, unit=tu.name, inst=f.q,
+                   detail="a report on the call path has a severity this rule cannot follow to a constant")
+            continue
         for (ok, acted, flag), tr in exits.items():
             if flag:
                 bad = (flag, tr)
